@@ -41,12 +41,19 @@ Definition pnumber (s : pstore) : nat := S (length (p_fz s)).          (* Freeze
 (* ---- getters (store.rs) -------------------------------------------------- *)
 Definition get_header (s : pstore) (id : N) : option N := option_map snd (p_hdr s id).
 
-(* get_frozen_block: by the header's number, when below Freezer::number() *)
-Definition get_frozen_block (s : pstore) (id : N) : option blk :=
+(* the freezer's item under the header's number, when below Freezer::number(): the freezer is indexed by
+   number only *)
+Definition frozen_at (s : pstore) (id : N) : option blk :=
   match p_hdr s id with
   | Some (n, _) => if Nat.ltb 0 n && Nat.ltb n (pnumber s) then nth_error (p_fz s) (n - 1) else None
   | None => None
   end.
+Definition same_id (id : N) (ob : option blk) : option blk :=
+  match ob with Some b => if N.eqb (b_id b) id then Some b else None | None => None end.
+(* get_frozen_block: that item, when it is the block asked for (its header hash is the key) *)
+Definition get_frozen_block (s : pstore) (id : N) : option blk := same_id id (frozen_at s id).
+(* as it was before the repair: whatever block the freezer holds at that number *)
+Definition get_frozen_block_bynum := frozen_at.
 
 Definition orelse {A} (a b : option A) : option A := match a with Some _ => a | None => b end.
 
@@ -83,16 +90,30 @@ Definition get_unfrozen_block (s : pstore) (id : N) : option blk :=
   | _, _, _ => None
   end.
 
-(* get_block: the freezer below Freezer::number(), else assembled from the part getters *)
+(* get_block: the freezer's block below Freezer::number() when it is the block asked for, else
+   assembled from the part getters (a side-chain block at a frozen height is still in the key-value store) *)
+Definition assemble (s : pstore) (id h : N) : option blk :=
+  match get_uncles s id, get_props s id with
+  | Some u, Some p => Some (mkBlk id h (get_body s id) u p (get_ext s id))
+  | _, _ => None
+  end.
 Definition get_block (s : pstore) (id : N) : option blk :=
   match p_hdr s id with
   | None => None
   | Some (n, h) =>
-    if Nat.ltb 0 n && Nat.ltb n (pnumber s) then nth_error (p_fz s) (n - 1)
-    else match get_uncles s id, get_props s id with
-         | Some u, Some p => Some (mkBlk id h (get_body s id) u p (get_ext s id))
-         | _, _ => None
-         end
+    if Nat.ltb 0 n && Nat.ltb n (pnumber s) then
+      match nth_error (p_fz s) (n - 1) with
+      | None => None
+      | Some b => if N.eqb (b_id b) id then Some b else assemble s id h
+      end
+    else assemble s id h
+  end.
+(* as it was before the repair: the freezer's block at the header's number, whatever its hash *)
+Definition get_block_bynum (s : pstore) (id : N) : option blk :=
+  match p_hdr s id with
+  | None => None
+  | Some (n, h) =>
+    if Nat.ltb 0 n && Nat.ltb n (pnumber s) then nth_error (p_fz s) (n - 1) else assemble s id h
   end.
 (* get_packed_block: the frozen block if there is one, else assembled (body rows read directly) *)
 Definition get_packed_block (s : pstore) (id : N) : option blk :=
@@ -176,11 +197,14 @@ Record pcase := mkPCase {
   pc_main : list blk;               (* heights 1.. *)
   pc_frozen : nat;                  (* Freezer::number() - 1 *)
   pc_rows : list bool;              (* per main-chain block: its part rows are in the key-value store *)
-  pc_obs : list pobs                (* per main-chain block *)
+  pc_obs : list pobs;               (* per main-chain block *)
+  pc_side : list (nat * blk);       (* side-chain blocks whose header row is still stored, with their heights *)
+  pc_side_obs : list pobs           (* per such block *)
 }.
 
 Definition state_of (c : pcase) : pstore :=
-  let numbered := combine (seq 1 (length (pc_main c))) (combine (pc_main c) (pc_rows c)) in
+  let numbered := combine (seq 1 (length (pc_main c))) (combine (pc_main c) (pc_rows c))
+                  ++ map (fun e => (fst e, (snd e, true))) (pc_side c) in
   let rows := filter (fun e => snd (snd e)) numbered in
   mkPS (fun n => option_map b_id (nth_error (pc_main c) (n - 1)))
        (alookup (map (fun e => (b_id (fst (snd e)), (fst e, b_hdr (fst (snd e))))) numbered))
@@ -212,4 +236,6 @@ Definition obs_eqb (s : pstore) (id : N) (o : pobs) : bool :=
 
 Definition check_pcase (c : pcase) : bool :=
   Nat.eqb (length (pc_obs c)) (length (pc_main c)) && Nat.eqb (length (pc_rows c)) (length (pc_main c)) &&
-  forallb (fun e => obs_eqb (state_of c) (b_id (fst e)) (snd e)) (combine (pc_main c) (pc_obs c)).
+  forallb (fun e => obs_eqb (state_of c) (b_id (fst e)) (snd e)) (combine (pc_main c) (pc_obs c)) &&
+  Nat.eqb (length (pc_side_obs c)) (length (pc_side c)) &&
+  forallb (fun e => obs_eqb (state_of c) (b_id (snd (fst e))) (snd e)) (combine (pc_side c) (pc_side_obs c)).
